@@ -9,14 +9,14 @@ that the property's own quantifier supplies ("no control characters or line term
 needed in exactly one place: an XML parser reads a literal TAB/LF/CR inside an attribute value as
 a space, and quick-xml's `escape` leaves those three bytes alone (`NoTabNl`).
 
-Status: everything is full strength except the `| safe` breadcrumb link of a file page
-(templates/macros.html 16 + html.rs 436-448): with `--abs-link-prefix` the parent directory name
-reaches the `href` unescaped, so the full statement is refuted from a closed witness
-(`C18_breadcrumb_href_false`) and proved under "no prefix" (`…_partial`). Finding
-C18-abs-prefix-href. A second, escaping-independent defect: the row links of the index pages are
-the bare name followed by `/index.html` / `.html`, so a name that starts like a URL scheme
-(`javascript:…`) yields an absolute link (`C18_row_href_relative_false`, `…_partial` for names
-without `:`). Finding C18-href-scheme-from-name.
+Status: full strength, including the breadcrumb link of a file page (escaped since /repo ffd66c7,
+`C18_breadcrumb_href`, `C18_breadcrumb_item`: every prefix option, every directory name) and the
+row links of the index pages without a prefix (explicitly relative since /repo 8e4c27e,
+`C18_row_href_relative`). One `…_partial` remains, about configuration rather than names: with
+`--abs-link-prefix P` the directory rows are `P~item` without a separator (index.html 23), so the
+statement "a name cannot change the scheme of a prefixed link" needs `P` to contain a `/` or a `:`
+(any absolute URL or path); it is refuted for `P = java`, directory `script:alert(1)`
+(`C18_prefixed_links_scheme_false`).
 What the theorems do not cover (checked at run time by harness/c18 on whole reports): that the
 writers of cobertura.rs / output.rs / html.rs route every name through these routines and that
 the fixed text around the names is what the templates say.
@@ -109,71 +109,81 @@ theorem C18_html_attr_scan (s rest : Bytes) :
     scanHtmlAttr (html s ++ 34 :: rest) = some (s, rest) :=
   scanHtmlAttr_html s rest
 
-/-! ### the `| safe` breadcrumb link -/
+/-! ### the breadcrumb of a file page (macros.html 15-17) -/
 
-/-- Full-strength statement for the unescaped `href` of a file page's second breadcrumb: whatever
-the prefix option and the parent directory name, a parser reads back the link that was computed
-and the attribute ends at the template's quote. -/
-def C18_breadcrumb_href_stmt : Prop :=
-  ∀ (absPrefix : Option Bytes) (parent rest : Bytes),
-    scanHtmlAttr (fileParentLink absPrefix parent ++ 34 :: rest)
-      = some (fileParentLink absPrefix parent, rest)
+/-- Whatever `--abs-link-prefix` is (absent or any string) and whatever the parent directory is
+called, a parser reads back exactly the link that `gen_html` computed and the attribute ends at
+the template's own quote. -/
+theorem C18_breadcrumb_href (absPrefix : Option Bytes) (parent rest : Bytes) :
+    scanHtmlAttr (html (fileParentLink absPrefix parent) ++ 34 :: rest)
+      = some (fileParentLink absPrefix parent, rest) :=
+  scanHtmlAttr_html _ rest
 
-/-- It is false of the code: `--abs-link-prefix http://h` and a directory called `x"><b id=pwn>`;
-the attribute ends after `http://h/x` and `><b id=pwn>/index.html` is parsed as markup. -/
-theorem C18_breadcrumb_href_false : ¬ C18_breadcrumb_href_stmt := by
-  intro h
-  have := h (some [104, 116, 116, 112, 58, 47, 47, 104])
-    [120, 34, 62, 60, 98, 32, 105, 100, 61, 112, 119, 110, 62] []
-  revert this
-  decide
-
-/-- Without `--abs-link-prefix` (the guard the witness violates) the link is `./index.html`
-whatever the directory is called, and it is read back as such. -/
-theorem C18_breadcrumb_href_partial (parent rest : Bytes) :
-    scanHtmlAttr (fileParentLink none parent ++ 34 :: rest)
-      = some (fileParentLink none parent, rest) :=
-  scanHtmlAttr_parentLink_none parent rest
-
-/-- … and the whole breadcrumb item `<li><a href="./index.html">NAME</a></li>` is tokenized as
-the template wrote it: one link whose text is exactly the directory name, followed by `</a>`. -/
-theorem C18_breadcrumb_item_partial (parent rest : Bytes) :
-    ∃ tail, breadcrumbItem (fileParentLink none parent) parent ++ rest
+/-- The whole breadcrumb item `<li><a href="LINK">LABEL</a></li>`, for every link and label, is
+tokenized as the template wrote it: one `a` element whose `href` is exactly the link and whose
+text is exactly the label, followed by the template's `</a></li>`. -/
+theorem C18_breadcrumb_item (link label rest : Bytes) :
+    ∃ tail, breadcrumbItem link label ++ rest
         = [60, 108, 105, 62, 60, 97, 32, 104, 114, 101, 102, 61, 34] ++ tail ∧
-      scanHtmlAttr tail = some (fileParentLink none parent,
-        62 :: (html parent ++ 60 :: ([47, 97, 62, 60, 47, 108, 105, 62] ++ rest))) ∧
-      scanHtmlText (html parent ++ 60 :: ([47, 97, 62, 60, 47, 108, 105, 62] ++ rest))
-        = some (parent, [47, 97, 62, 60, 47, 108, 105, 62] ++ rest) := by
-  refine ⟨fileParentLink none parent ++ 34 :: 62 :: (html parent ++ 60 ::
+      scanHtmlAttr tail = some (link,
+        62 :: (html label ++ 60 :: ([47, 97, 62, 60, 47, 108, 105, 62] ++ rest))) ∧
+      scanHtmlText (html label ++ 60 :: ([47, 97, 62, 60, 47, 108, 105, 62] ++ rest))
+        = some (label, [47, 97, 62, 60, 47, 108, 105, 62] ++ rest) := by
+  refine ⟨html link ++ 34 :: 62 :: (html label ++ 60 ::
       ([47, 97, 62, 60, 47, 108, 105, 62] ++ rest)), ?_, ?_, ?_⟩
   · simp [breadcrumbItem]
-  · exact scanHtmlAttr_parentLink_none parent _
-  · exact scanHtmlText_html parent _
+  · exact scanHtmlAttr_html link _
+  · exact scanHtmlText_html label _
 
 /-! ### links built from names -/
 
-/-- Full-strength statement for the row links of the index pages (`item~"/index.html"`,
-`item~".html"`, no prefix option): whatever the directory or file is called, the link is a relative
-reference (it has no URL scheme), so following it stays inside the report. -/
-def C18_row_href_relative_stmt : Prop :=
-  ∀ item : Bytes, hasScheme (dirRowUrl item) = false ∧ hasScheme (fileRowUrl item) = false
+/-- Without `--abs-link-prefix` the row links of the index pages (`"./"~item~"/index.html"`,
+`"./"~item~".html"`) are relative references whatever the directory or file is called: a name
+such as `javascript:alert(1)` cannot turn the link into an absolute URL. (That the `href`
+attribute carries exactly this link is `C18_html_attr_scan`.) -/
+theorem C18_row_href_relative (item : Bytes) :
+    hasScheme (dirRowUrl none item) = false ∧ hasScheme (fileRowUrl none item) = false := by
+  constructor
+  · simp only [dirRowUrl, List.append_assoc]; exact hasScheme_dotSlash _
+  · simp only [fileRowUrl, List.append_assoc]; exact hasScheme_dotSlash _
 
-/-- It is false of the code: a directory called `javascript:alert(1)` gives the link
-`javascript:alert(1)/index.html` (escaping is irrelevant: `:` is not a metacharacter). -/
-theorem C18_row_href_relative_false : ¬ C18_row_href_relative_stmt := by
+/-- With a prefix, a file row is `Q~"/"~item~".html"`: whether it has a scheme is decided by `Q`
+alone, for every `Q` and every file name. -/
+theorem C18_file_row_href_prefixed (q item : Bytes) :
+    hasScheme (fileRowUrl (some q) item) = hasScheme q :=
+  hasScheme_fileRowUrl_some q item
+
+/-- Full-strength statement for the prefixed links: whatever the prefix `P`, the scheme of a
+directory row (`P~item~"/index.html"`), of a file row under `P/<parent>` and of the breadcrumb
+link `P/<parent>/index.html` is the scheme of `P` – names have no say. -/
+def C18_prefixed_links_scheme_stmt : Prop :=
+  ∀ (p parent item : Bytes), parent.head? ≠ some 47 →
+    hasScheme (dirRowUrl (some p) item) = hasScheme p ∧
+    hasScheme (fileRowUrl (some (pathJoin p parent)) item) = hasScheme p ∧
+    hasScheme (fileParentLink (some p) parent) = hasScheme p
+
+/-- It is false of the code for prefixes that are neither a URL nor a path: the directory row is
+`P~item` with nothing in between, so `--abs-link-prefix java` and a directory `script:alert(1)`
+give `javascript:alert(1)/index.html`. -/
+theorem C18_prefixed_links_scheme_false : ¬ C18_prefixed_links_scheme_stmt := by
   intro h
-  have := (h [106, 97, 118, 97, 115, 99, 114, 105, 112, 116, 58, 97, 108, 101, 114, 116, 40, 49, 41]).1
+  have := (h [106, 97, 118, 97] []
+    [115, 99, 114, 105, 112, 116, 58, 97, 108, 101, 114, 116, 40, 49, 41] (by decide)).1
   revert this
   decide
 
-/-- Names without `:` (the guard the witness violates) always give relative links. -/
-theorem C18_row_href_relative_partial (item : Bytes) (h : 58 ∉ item) :
-    hasScheme (dirRowUrl item) = false ∧ hasScheme (fileRowUrl item) = false := by
-  constructor
-  · apply hasScheme_false_of_no_colon
-    simp [dirRowUrl, indexHtml, h]
-  · apply hasScheme_false_of_no_colon
-    simp [fileRowUrl, h]
+/-- For every prefix that contains a `/` or a `:` (every absolute URL or path – the guard the
+witness violates) and every relative parent directory (`gen_html` returns early otherwise), the
+scheme of all three kinds of prefixed link is the prefix's own. -/
+theorem C18_prefixed_links_scheme_partial (p parent item : Bytes) (h : 47 ∈ p ∨ 58 ∈ p)
+    (hrel : parent.head? ≠ some 47) :
+    hasScheme (dirRowUrl (some p) item) = hasScheme p ∧
+    hasScheme (fileRowUrl (some (pathJoin p parent)) item) = hasScheme p ∧
+    hasScheme (fileParentLink (some p) parent) = hasScheme p := by
+  refine ⟨hasScheme_dirRowUrl_some p item h, ?_, hasScheme_fileParentLink_some p parent h hrel⟩
+  obtain ⟨z, hz⟩ := pathJoin_eq_append p parent hrel
+  rw [hasScheme_fileRowUrl_some, hz]
+  exact hasScheme_append_of_mem p z h
 
 /-! ### non-vacuity: concrete hostile inputs through the executable model -/
 
@@ -197,11 +207,22 @@ example : html [60, 47, 112, 114, 101, 62, 60, 115, 99, 114, 105, 112, 116, 62, 
        115, 99, 114, 105, 112, 116, 38, 103, 116, 59, 38, 35, 120, 50, 55, 59, 38, 97, 109, 112, 59,
        108, 116, 59] := by decide
 
-/-- what the parser sees at the excluded point -/
-example : scanHtmlAttr (fileParentLink (some [104, 116, 116, 112, 58, 47, 47, 104])
-      [120, 34, 62, 60, 98, 32, 105, 100, 61, 112, 119, 110, 62] ++ [34, 62])
-    = some ([104, 116, 116, 112, 58, 47, 47, 104, 47, 120],
-        [62, 60, 98, 32, 105, 100, 61, 112, 119, 110, 62, 47, 105, 110, 100, 101, 120, 46, 104, 116,
-         109, 108, 34, 62]) := by decide
+/-- the former witnesses: prefix `http://h`, directory `x"><b id=pwn>` – the attribute now carries
+the whole link and ends at the template's quote -/
+example : scanHtmlAttr (html (fileParentLink (some [104, 116, 116, 112, 58, 47, 47, 104])
+      [120, 34, 62, 60, 98, 32, 105, 100, 61, 112, 119, 110, 62]) ++ [34, 62])
+    = some ([104, 116, 116, 112, 58, 47, 47, 104, 47, 120, 34, 62, 60, 98, 32, 105, 100, 61, 112,
+        119, 110, 62, 47, 105, 110, 100, 101, 120, 46, 104, 116, 109, 108], [62]) := by decide
+
+/-- … and a directory `javascript:alert(1)` gives `./javascript:alert(1)/index.html` -/
+example : dirRowUrl none [106, 97, 118, 97, 115, 99, 114, 105, 112, 116, 58, 97, 108, 101, 114, 116,
+      40, 49, 41]
+    = [46, 47, 106, 97, 118, 97, 115, 99, 114, 105, 112, 116, 58, 97, 108, 101, 114, 116, 40, 49, 41,
+       47, 105, 110, 100, 101, 120, 46, 104, 116, 109, 108] := by decide
+
+/-- the guard of `C18_prefixed_links_scheme_partial` is satisfiable and non-trivial:
+`http://h` has a scheme, `/srv/www` has none, and neither can be changed by `script:x` -/
+example : hasScheme (dirRowUrl (some [104, 116, 116, 112, 58, 47, 47, 104]) [115, 99, 58, 120]) = true
+    ∧ hasScheme (dirRowUrl (some [47, 115, 114, 118]) [115, 99, 58, 120]) = false := by decide
 
 end Grcov.Props.C18
